@@ -4,8 +4,9 @@
    See props/C05.v for the reading guide (orc, h, run, exec, async_agrees).
    `f` is the user closure `FnOnce(&mut InFieldSet)`: an arbitrary function from the bytes it is
    shown to the bytes it stores; `call_cmd_closure f z` applies it to a fixed-size field set.
-   NOT covered here: that the generator picks `()` exactly for an empty field list
-   (C09_unit_iff_no_fields, a generator-level statement). *)
+   The generator clause (which of the four bodies a generated accessor runs: `()` exactly for an
+   empty field list; a ref takes its target's field sets) is CmdShape.v, tied to the real generator by
+   the C09 check's generator phase: C09_unit_iff_no_fields, C09_generated_dispatch. *)
 From Coq Require Import ZArith List Bool.
 From DD Require Import Proto ProtoSpec ProtoCases ProtoProofs.
 Import ListNotations.
@@ -92,7 +93,60 @@ Example C09_example_none_in_out :
     = ([(CmdDispatch 3 0 [] 16 [0; 0], mkResp (ROk 0%nat) [5])], 0%nat, Done (ROk [5; 0])).
 Proof. vm_compute. repeat split. Qed.
 
+(* ---- generator clause ---- *)
+From Coq Require Import String.
+From DD Require Import Mir Reset CmdShape CmdShapeProofs.
+
+(* the accessor's type parameter is `()` exactly when the command declares no fields in that direction
+   (NOT when its declared size is 0 or absent) *)
+Theorem C09_unit_iff_no_fields : forall n c,
+  (sh_fs_in (shape_of n c) = None <-> cm_in_fields c = []) /\
+  (sh_fs_out (shape_of n c) = None <-> cm_out_fields c = []).
+Proof. intros n c; split; [apply unit_in_iff_no_fields|apply unit_out_iff_no_fields]. Qed.
+
+(* a generated command accessor (for any command of any MIR, any interface, history, address and closure)
+   makes exactly ONE dispatch_command call; a direction with fields transfers the declared size and
+   ceil(size/8) bytes (the input: what the closure made of an all-zero field set; the output buffer:
+   zeroed), a direction without fields transfers size 0 and an empty slice *)
+Theorem C09_generated_dispatch : forall orc h a c f n,
+  let s := shape_of n c in
+  let input := if is_nil (cm_in_fields c) then [] else Proto.call_cmd_closure f (Proto.zeros (Proto.nbytes (cm_size_in c))) in
+  let call := Proto.CmdDispatch a (sh_tx_in s) input (sh_tx_out s) (Proto.zeros (Proto.nbytes (sh_tx_out s))) in
+  List.length input = Proto.nbytes (sh_tx_in s) /\
+  generated_dispatch_calls orc h a c f = [(call, orc h call)].
+Proof. exact generated_dispatch_one_call. Qed.
+
+Theorem C09_transferred_sizes : forall n c,
+  (cm_in_fields c = [] -> sh_tx_in (shape_of n c) = 0%Z) /\
+  (cm_in_fields c <> [] -> sh_tx_in (shape_of n c) = cm_size_in c) /\
+  (cm_out_fields c = [] -> sh_tx_out (shape_of n c) = 0%Z) /\
+  (cm_out_fields c <> [] -> sh_tx_out (shape_of n c) = cm_size_out c).
+Proof. exact transferred_sizes. Qed.
+
+(* a ref to a command hands out its TARGET's field sets *)
+Theorem C09_ref_takes_target_shape : forall all cf n target addr aao rep c,
+  search_object target all = Some (OCommand c) ->
+  shape_of_object all (ORef cf n (OvCommand target addr aao rep)) = Some (shape_of n c) /\
+  sh_fs_in (shape_of n c) = sh_fs_in (shape_of (cm_name c) c) /\
+  sh_fs_out (shape_of n c) = sh_fs_out (shape_of (cm_name c) c) /\
+  sh_tx_in (shape_of n c) = sh_tx_in (shape_of (cm_name c) c) /\
+  sh_tx_out (shape_of n c) = sh_tx_out (shape_of (cm_name c) c).
+Proof. exact ref_shape_is_targets. Qed.
+
+(* non-vacuity: a command that declares SIZE_BITS_IN = 8 but no input fields, and 16 output bits with a field *)
+Example C09_example_size_without_fields :
+  let c := {| cm_cfg := None; cm_name := "Flush"; cm_address := 3%Z; cm_byte_order := None; cm_bit_order := BiLSB0;
+              cm_allow_bit_overlap := false; cm_allow_address_overlap := false; cm_size_in := 8%Z; cm_size_out := 16%Z;
+              cm_repeat := None; cm_in_fields := [];
+              cm_out_fields := [ {| f_cfg := None; f_name := "val"; f_access := RW; f_base := BUint; f_conv := None; f_start := 0%Z; f_end := 16%Z |} ] |} in
+  show_shape (shape_of "Flush" c) = "flush:():FlushFieldsOut:0:16"%string.
+Proof. vm_compute. reflexivity. Qed.
+
 Print Assumptions C09_dispatch_none.
+Print Assumptions C09_unit_iff_no_fields.
+Print Assumptions C09_generated_dispatch.
+Print Assumptions C09_transferred_sizes.
+Print Assumptions C09_ref_takes_target_shape.
 Print Assumptions C09_dispatch_in.
 Print Assumptions C09_dispatch_out.
 Print Assumptions C09_dispatch_inout.
